@@ -22,8 +22,10 @@ type recorder struct {
 	items []badger.Item
 }
 
-func (r *recorder) RunTransaction(ctx context.Context, fn transactor.TransactionFn) error { return fn(ctx) }
-func (r *recorder) DB(context.Context) badger.QueryManager                               { return r }
+func (r *recorder) RunTransaction(ctx context.Context, fn transactor.TransactionFn) error {
+	return fn(ctx)
+}
+func (r *recorder) DB(context.Context) badger.QueryManager { return r }
 func (r *recorder) Set(key, val []byte) error {
 	r.sets[string(key)] = append([]byte(nil), val...)
 	return nil
